@@ -348,5 +348,176 @@ Lemma get_int_sin Y idx : chain 1 Y 1 -> inb (shape Y) idx ->
   get K (map (int_core K cs sn Sin) Y) idx =
   msum K (shape Y) (fun jdx => gprod smat (shape Y) idx jdx * get K Y jdx).
 Proof. intros HC Hi. apply get_map_cmode; auto. intros G HG. apply int_core_sin. Qed.
+
+(* linearity of the coefficient transform in the tensor entries *)
+Lemma int_cheb_linear Y Y1 Y2 al be idx :
+  chain 1 Y 1 -> chain 1 Y1 1 -> chain 1 Y2 1 -> shape Y1 = shape Y -> shape Y2 = shape Y ->
+  Forall (fun n => 2 <= n) (shape Y) -> inb (shape Y) idx ->
+  (forall jdx, inb (shape Y) jdx -> get K Y jdx = al * get K Y1 jdx + be * get K Y2 jdx) ->
+  get K (map (int_core K cs sn Cheb) Y) idx =
+  al * get K (map (int_core K cs sn Cheb) Y1) idx + be * get K (map (int_core K cs sn Cheb) Y2) idx.
+Proof.
+  intros C0 C1 C2 S1 S2 Hn Hi H.
+  assert (F : forall Z : list (core T), shape Z = shape Y -> Forall (fun G => 2 <= cn G) Z).
+  { intros Z SZ. apply Forall_forall. intros G HG. rewrite Forall_forall in Hn. apply Hn.
+    rewrite <- SZ. unfold shape. now apply in_map. }
+  rewrite (get_int_cheb Y idx) by auto.
+  rewrite (get_int_cheb Y1 idx) by (auto; rewrite S1; auto).
+  rewrite (get_int_cheb Y2 idx) by (auto; rewrite S2; auto). rewrite S1, S2.
+  rewrite <- !msum_mul_l, <- msum_add by auto. apply msum_ext; intros jdx Hj. rewrite H by auto. ring.
+Qed.
+
+(* ---------------------------------------------------------------- polynomials in the Chebyshev basis *)
+(* prod_k T_{m_k}(xi_k) and the polynomial with coefficient tensor c, at the (scaled) point xi *)
+Fixpoint tprod (xi : list T) (m : list nat) : T :=
+  match xi, m with
+  | x :: xi', k :: m' => chebT K x k * tprod xi' m'
+  | _, _ => 1
+  end.
+Definition polyv (ns : list nat) (c : list nat -> T) (xi : list T) : T :=
+  msum K ns (fun m => c m * tprod xi m).
+Lemma polyv_ext ns c c' xi : (forall m, inb ns m -> c m = c' m) -> polyv ns c xi = polyv ns c' xi.
+Proof. intros H. apply msum_ext; intros m Hm. now rewrite H. Qed.
+
+(* ---------------------------------------------------------------- func_gets *)
+Definition nodeU (m j : nat) : T := ind_to_poi_cheb K cs j (fm1 K) 1 m.
+Fixpoint nodesU (ms jdx : list nat) : list T :=
+  match ms, jdx with
+  | m :: ms', j :: jdx' => nodeU m j :: nodesU ms' jdx'
+  | _, _ => []
+  end.
+Definition getsM (kind : fkind) (m : nat) : nat -> nat -> T :=
+  fun j i => match kind with Cheb => chebT K (nodeU m j) i | Sin => sn (m + 1) ((j + 1) * (i + 1)) end.
+Lemma gets_core_cmode kind G m : gets_core K cs sn kind G m = cmode m (getsM kind m) G.
+Proof.
+  unfold gets_core, cmode. apply mkcore_ext; intros a j b Ha Hj Hb. apply bsum_ext; intros i Hi.
+  unfold gets_table, getsM. destruct kind.
+  - rewrite nth_tab by auto. rewrite nth_func_basis1 by auto. unfold nodeU. ring.
+  - rewrite nth_tab by auto. rewrite nth_tab by auto. ring.
+Qed.
+Fixpoint getsMs (kind : fkind) (A : list (core T)) (ms : list nat) : list (nat * (nat -> nat -> T)) :=
+  match A, ms with
+  | G :: A', m :: ms' => (m, getsM kind m) :: getsMs kind A' ms'
+  | _, _ => []
+  end.
+Lemma func_gets_tmode kind : forall A ms, func_gets K cs sn A ms kind = tmode (getsMs kind A ms) A.
+Proof.
+  induction A as [|G A IH]; intros [|m ms]; cbn [func_gets getsMs tmode fst snd]; auto.
+  rewrite gets_core_cmode, IH. reflexivity.
+Qed.
+Lemma getsMs_fst kind : forall A ms, length ms = length A -> map fst (getsMs kind A ms) = ms.
+Proof.
+  induction A as [|G A IH]; intros [|m ms] L; cbn [length] in L; try discriminate; cbn [getsMs map fst]; auto.
+  f_equal. apply IH. lia.
+Qed.
+Lemma getsMs_length kind : forall A ms, length ms = length A -> length (getsMs kind A ms) = length A.
+Proof.
+  induction A as [|G A IH]; intros [|m ms] L; cbn [length] in L; try discriminate; cbn [getsMs length]; auto;
+  try (f_equal; apply IH; lia).
+Qed.
+Lemma mprod_gets_cheb : forall A ms jdx idx, length ms = length A ->
+  mprod (map snd (getsMs Cheb A ms)) jdx idx = tprod (nodesU ms jdx) idx.
+Proof.
+  induction A as [|G A IH]; intros [|m ms] jdx idx L; cbn [length] in L; try discriminate.
+  - cbn [getsMs map mprod nodesU tprod]. reflexivity.
+  - destruct jdx as [|j jdx]; [reflexivity|]. destruct idx as [|i idx]; [reflexivity|].
+    cbn [getsMs map snd mprod nodesU tprod]. rewrite IH by lia. reflexivity.
+Qed.
+(* re-sampling: the entries of func_gets are the values of the polynomial with coefficients A at the nodes *)
+Lemma get_gets_cheb A ms jdx : chain 1 A 1 -> length ms = length A -> inb ms jdx ->
+  get K (func_gets K cs sn A ms Cheb) jdx = polyv (shape A) (get K A) (nodesU ms jdx).
+Proof.
+  intros HC L Hj. rewrite func_gets_tmode. rewrite modewise_linear; auto.
+  - apply msum_ext; intros idx _. rewrite mprod_gets_cheb by auto. ring.
+  - now apply getsMs_length.
+  - rewrite getsMs_fst; auto.
+Qed.
+(* same-size grids: the matrix family of func_gets *)
+Lemma mprod_gets_same kind : forall A jdx idx,
+  mprod (map snd (getsMs kind A (shape A))) jdx idx = gprod (getsM kind) (shape A) jdx idx.
+Proof.
+  induction A as [|G A IH]; intros [|j jdx] [|i idx]; cbn [shape map getsMs mprod gprod snd]; auto.
+  f_equal. apply IH.
+Qed.
+Lemma get_gets_same kind A jdx : chain 1 A 1 -> inb (shape A) jdx ->
+  get K (func_gets K cs sn A (shape A) kind) jdx =
+  msum K (shape A) (fun idx => gprod (getsM kind) (shape A) jdx idx * get K A idx).
+Proof.
+  intros HC Hj. assert (L : length (shape A) = length A) by (unfold shape; apply map_length).
+  rewrite func_gets_tmode. rewrite modewise_linear; auto.
+  - apply msum_ext; intros idx _. now rewrite mprod_gets_same.
+  - now apply getsMs_length.
+  - rewrite getsMs_fst; auto.
+Qed.
+
+(* ---------------------------------------------------------------- func_get *)
+Fixpoint bprod (ts : list (list T)) (idx : list nat) : T :=
+  match ts, idx with
+  | t :: ts', i :: idx' => nth i t 0 * bprod ts' idx'
+  | _, _ => 1
+  end.
+Definition rowMs (ts : list (list T)) : list (nat * (nat -> nat -> T)) :=
+  map (fun t => (1%nat, fun (_ i : nat) => nth i t 0)) ts.
+Lemma vstepb_cmode v G t : vstepb K v G t = vstep K v (cmode 1 (fun _ i => nth i t 0) G) O.
+Proof.
+  unfold vstepb, vstep. unfold cmode at 1. rewrite cr2_mk. apply tab_ext; intros q Hq.
+  unfold cmode at 1. rewrite cr1_mk. apply bsum_ext; intros r Hr. f_equal.
+  unfold cmode. rewrite cget_mk by auto. apply bsum_ext; intros j Hj. ring.
+Qed.
+Lemma runb_tmode : forall A ts v, length ts = length A ->
+  runb K v A ts = run K v (tmode (rowMs ts) A) (map (fun _ => O) ts).
+Proof.
+  induction A as [|G A IH]; intros [|t ts] v L; cbn [length] in L; try discriminate; cbn [runb rowMs map tmode run fst snd]; auto.
+  rewrite vstepb_cmode. apply IH. lia.
+Qed.
+Lemma mprod_rows : forall ts idx, mprod (map snd (rowMs ts)) (map (fun _ => O) ts) idx = bprod ts idx.
+Proof.
+  induction ts as [|t ts IH]; intros [|i idx]; cbn [rowMs map snd mprod bprod]; auto.
+  f_equal. apply IH.
+Qed.
+Lemma inb_rows ts : inb (map fst (rowMs ts)) (map (fun _ => O) ts).
+Proof. unfold inb. induction ts; cbn [rowMs map fst]; constructor; auto. Qed.
+Lemma contract_basis_msum A ts : chain 1 A 1 -> length ts = length A ->
+  contract_basis K A ts = msum K (shape A) (fun idx => bprod ts idx * get K A idx).
+Proof.
+  intros HC L. unfold contract_basis. rewrite runb_tmode by auto.
+  change (nth O (run K [1] (tmode (rowMs ts) A) (map (fun _ => O) ts)) 0)
+    with (get K (tmode (rowMs ts) A) (map (fun _ => O) ts)).
+  rewrite modewise_linear; auto.
+  - apply msum_ext; intros idx _. now rewrite mprod_rows.
+  - unfold rowMs. now rewrite map_length.
+  - apply inb_rows.
+Qed.
+Fixpoint scaled (x a b : list T) : list T :=
+  match x, a, b with
+  | xk :: x', ak :: a', bk :: b' => poi_scale_cheb K xk ak bk :: scaled x' a' b'
+  | _, _, _ => []
+  end.
+Lemma bprod_basis_rows : forall A x a b idx, length x = length A -> length a = length A -> length b = length A ->
+  inb (shape A) idx -> bprod (basis_rows K x A a b) idx = tprod (scaled x a b) idx.
+Proof.
+  induction A as [|G A IH]; intros [|xk x] [|ak a] [|bk b] idx Lx La Lb Hi; cbn [length] in *; try discriminate.
+  - reflexivity.
+  - destruct idx as [|i idx]; [inversion Hi|]. cbn [shape map] in Hi. apply inb_cons in Hi as [Hi Hi'].
+    cbn [basis_rows bprod scaled tprod]. rewrite nth_func_basis1 by auto. rewrite IH; auto.
+Qed.
+Lemma basis_rows_length : forall A x a b, length x = length A -> length a = length A -> length b = length A ->
+  length (basis_rows K x A a b) = length A.
+Proof.
+  induction A as [|G A IH]; intros [|xk x] [|ak a] [|bk b] Lx La Lb; cbn [length] in *; try discriminate; auto.
+  cbn [basis_rows length]; try (f_equal; apply IH; lia).
+Qed.
+(* evaluation: inside the box func_get returns the polynomial with coefficient tensor A at the scaled point *)
+Lemma func_get1_in tol x A a b z skip : chain 1 A 1 ->
+  length x = length A -> length a = length A -> length b = length A ->
+  skip && out_box K tol x a b = false ->
+  func_get1 K tol x A a b z skip = polyv (shape A) (get K A) (scaled x a b).
+Proof.
+  intros HC Lx La Lb Hin. unfold func_get1, func_get1_rows. rewrite Hin.
+  rewrite contract_basis_msum by (auto using basis_rows_length).
+  apply msum_ext; intros idx Hi. rewrite bprod_basis_rows by auto. ring.
+Qed.
+Lemma func_get1_out tol x A a b z : out_box K tol x a b = true -> func_get1 K tol x A a b z true = z.
+Proof. intros H. unfold func_get1, func_get1_rows. rewrite H. reflexivity. Qed.
 End Spec.
 End FuncP.
